@@ -1,16 +1,16 @@
 SPECIFICATION Spec
 CONSTANTS
   IH = 1
-  MaxH = 4
+  MaxH = 3
   L = 2
-  MaxReplies = 5
+  MaxReplies = 4
   MaxCrashes = 1
-  TxKinds = {"a", "b"}
+  TxKinds = {"a"}
   SkipEmpty = TRUE
   BaseAtIH = TRUE
   Alias = FALSE
   MarksDurable = TRUE
-  SeedDataFromHeader = FALSE
+  SeedDataFromHeader = TRUE
   Rec = FALSE
 INVARIANTS WmSound InclSound InclBounds FinalizeInOrder FinalizeBeforeReport RefuseOnlyIfPending
 PROPERTIES WmMonotone InclMonotone
